@@ -20,6 +20,16 @@ def fileEtag (ino len secs nanos : Nat) : Bytes :=
   [cQuote] ++ hex ino ++ [cColon] ++ hex len ++ [cColon] ++ hex secs ++ [cColon] ++ hex nanos
     ++ [cQuote]
 
+/-- The seconds field of the tag: `{sign}{secs:x}`, `sign` being `-` for a modification time
+before the epoch (then `secs`, `nanos` are its distance from the epoch) and empty otherwise. -/
+def signedHex (neg : Bool) (secs : Nat) : Bytes := (if neg then [45] else []) ++ hex secs
+
+/-- `ChunkedReadFile::etag` for any modification time:
+`"{inode:x}:{len:x}:{sign}{secs:x}:{nanos:x}"`. -/
+def fileEtagS (ino len : Nat) (neg : Bool) (secs nanos : Nat) : Bytes :=
+  [cQuote] ++ hex ino ++ [cColon] ++ hex len ++ [cColon] ++ signedHex neg secs ++ [cColon]
+    ++ hex nanos ++ [cQuote]
+
 inductive FOut where
   | chunk (start n : Nat)     -- `n ≥ 1` file bytes starting at offset `start`
   | eof                       -- `Err(UnexpectedEof)`; the unfold state is unchanged
